@@ -20,6 +20,7 @@ func init() {
 	vhRegister("vh_C01_wiring", vh_C01_wiring)
 	vhRegister("vh_C01_wiring_twin", vh_C01_wiring_twin)
 	vhRegister("vh_C06_expiry", vh_C06_expiry)
+	vhRegister("vh_C06_expiry_values", vh_C06_expiry_values)
 	vhRegister("vh_C08_sublayouts", vh_C08_sublayouts)
 	vhRegister("vh_C09_inspections", vh_C09_inspections)
 }
@@ -398,6 +399,22 @@ func vh_C06_expiry(a []int) {
 	parsed := vUFBool("parses", "2006-01-02T15:04:05Z", exp)
 	vAssert("C06.parsed-with-utc-schema", vhParseCalls == 1 && vhParseLayout == "2006-01-02T15:04:05Z" && vhParseValue == exp)
 	vAssert("C06.accept-iff-parsed-and-not-past", vIff(err == nil, vAnd(parsed, vLeInt(0, vhRemaining))))
+	vReach("C06.end")
+}
+
+// vh_C06_expiry_values: the same claim on a catalogue of remaining durations
+// around the boundaries (so that code doing float or calendar arithmetic on the
+// duration stays decidable).
+func vh_C06_expiry_values(a []int) {
+	vhParseCalls, vhUntilCalls = 0, 0
+	const h = 3600000000000
+	vals := []int{-48 * h, -24 * h, -24*h + 1, -23 * h, -h, -90000000000, -1000000000, -1, 0, 1, 1000000000, h, 24 * h, 1000 * h}
+	vhRemaining = vals[vChoice("remaining", len(vals))]
+	exp := vPick("expires", "2030-01-01T00:00:00Z", "garbage")
+	err := VerifyLayoutExpiration(Layout{Expires: exp})
+	vObserve("expiry-values", vhRemaining, err == nil)
+	parsed := vUFBool("parses", "2006-01-02T15:04:05Z", exp)
+	vAssert("C06.accept-iff-parsed-and-not-past-on-boundary-values", vIff(err == nil, vAnd(parsed, vhRemaining >= 0)))
 	vReach("C06.end")
 }
 
